@@ -61,6 +61,10 @@ checks = [
   "exhaustive enumeration of the C08 lattice on the real proj package against (a) the proj4js constant tables, (b) the vendored proj4js 2.3.12 evaluated under node for every definition x position x direction (incl. cross-datum projected pairs), (c) independently implemented Snyder / Krueger / Helmert reference formulas",
   "Every table name, the exported fields of every lattice definition, and every lattice transformation (geographic base <-> projected, WGS84 -> projected / geographic, projected -> projected across datums) are compared with proj4js (0.1 mm / 1e-9 deg) and the forward projections with independent formulas (5 mm); complete over the lattice, silent between its points.",
   "proj4js runs under node on the sources vendored in the repository (golden copies in ref/golden when node is absent); six classes of inherited or reference-side behaviour are listed as known findings.", "4/C09"),
+ ("C10", MC, "E2+E1",
+  "stateless exhaustive enumeration of all Build/Call operation sequences to a depth over spatial references parsed once per sequence (each call compared with a freshly built transformer), and bounded-exhaustive enumeration of structure trees x failing transformers for Geom.Transform",
+  "Every sequence of up to 4 (5) NewTransform / transformer-call operations over 5 (7) spatial references (7- and 3-parameter datums needing the WGS84 hop, the registered globals, non-default axis orders, utm, krovak) is executed on shared SR objects and every call compared with a fresh transformer; every structure tree of the eight types is transformed with nil, an affine map and a transformer failing on each k-th call.",
+  "No state deduplication (closure-captured variables cannot be fingerprinted): the search is plain enumeration of histories; longer histories and other reference pairs are outside.", "4/C10"),
  ("C11", MC, "E2",
   "explicit-state BFS over the real R-tree (deep clone per transition, canonical-state dedup) with structural invariants and brute-force SearchIntersect oracle in every state",
   "All insert/delete histories over a 6-8 object alphabet are explored to closure of the reachable state space for branching (2,4) and (2,5) (depth-bounded for (3,6)); neighbourhoods of height-3 seed trees to depth 5; every distinct state is checked against a multiset model with 104 query boxes and the balance/envelope/fan-out invariants read through an injected read-only walk.",
@@ -93,6 +97,7 @@ man = {
  "engines": [
   {"name": "E1", "path": "mc/enum, mc/geomgen, mc/exact", "kind_free_text": "bounded-exhaustive input enumeration on the real API against a reference model"},
   {"name": "E2", "path": "mc/bfs", "kind_free_text": "explicit-state breadth-first search over real objects with canonical-state deduplication"},
+  {"name": "E2+E1", "path": "checks/c10", "kind_free_text": "stateless enumeration of operation histories plus bounded-exhaustive input enumeration"},
   {"name": "E2+E3", "path": "checks/c19, mc/sched, mc/vrt, instr", "kind_free_text": "explicit-state search over operation histories combined with environment-choice exploration"},
   {"name": "E3", "path": "mc/sched, mc/vrt, instr", "kind_free_text": "controlled cooperative scheduler + preemption-bounded DFS over source-instrumented packages"},
   {"name": "E4", "path": "mc/fault", "kind_free_text": "exhaustive single-fault enumeration over valid encodings with isolated worker"},
